@@ -50,6 +50,7 @@ struct engine {
   int shard_k = 0, shard_n = 1, shard_depth = 0;
   unsigned long shard_bits = 0;
   bool check_hash = true;
+  size_t max_depth = 20000;
   engine() : s(c) {
     z3::params p(c);
     p.set("timeout", 30000u);
@@ -109,6 +110,7 @@ struct engine {
     if (cond.is_true()) return true;
     if (cond.is_false()) return false;
     branches++;
+    if (pos > max_depth) throw no_verdict{"path-too-long(possible divergence on symbolic input)"};
     bool out;
     if (pos < decisions.size()) {
       dec &d = decisions[pos];
